@@ -18,7 +18,7 @@ from .. import explore as E
 from ..core import Partial, Report, pmap, seed_from_env
 from ..oracles import routing as O
 from ..routing import SPECS
-from ..rtree import explore_instance, selected_specs, sig
+from ..rtree import explore_instance, selected_specs, sig, solo_validate
 
 PID = "C06"
 
@@ -118,6 +118,8 @@ def unit(item):
         oi, cfg = spec.oracle_inst(inst), spec.oracle_cfg(inst)
         env, td0, tree = explore_instance(spec, inst, p)
         max_len = gm[shape_sig(td0)]
+        for b in solo_validate(spec, env, td0, tree, p, k=3):
+            p.note(f"{spec.key} {iid}: batched frontier and solo stepping disagree at {b} (reported under C04)")
         td_reset = env.reset(td0.clone())
 
         def judge(acts):
